@@ -40,8 +40,13 @@ pub struct IncRoot {
     pub label: String,
     pub lp_native: bool,
     pub fee_kind: FeeKind,
-    /// setup prefix: 0 = nothing; 1 = alice & bob hold open positions; 2 = + one flow opened by carol and one tick+snapshot
+    /// setup prefix: 0 = nothing; 1 = alice & bob hold open positions; 2 = + one flow opened by carol and one tick+snapshot;
+    /// 3 = like 2, then 5 more epochs (each with a snapshot; alice claims in epoch 3) so that the 4-epoch flow has ended;
+    /// 4 = positions, a 130-epoch flow, then 99 epochs with snapshots and nobody claiming (claim cap boundary)
     pub prefix: u8,
+    /// users keep a large standing cw20 allowance towards the incentive contract (as UIs and the
+    /// repository's own tests do) instead of approving exactly the stated amount per call
+    pub standing_allowance: bool,
 }
 
 pub struct IncScn {
@@ -242,6 +247,13 @@ impl IncScn {
                 pair_provide(w, p, u, [amt, amt], None, None).expect("seed liquidity");
             }
         }
+        if r.standing_allowance {
+            if let AssetInfo::Token { contract_addr } = &lp {
+                for u in &everyone {
+                    w.cw20_allow(contract_addr, u, &incentive, 1u128 << 100);
+                }
+            }
+        }
         IH { collector, mockdist, ifactory, incentive, helper, pair, lp, reward, fee, root: r.clone() }
     }
 
@@ -255,7 +267,9 @@ impl IncScn {
                 }
             }
             AssetInfo::Token { contract_addr } => {
-                set_allowance(w, contract_addr, user, &h.incentive, amount);
+                if !h.root.standing_allowance {
+                    set_allowance(w, contract_addr, user, &h.incentive, amount);
+                }
                 vec![]
             }
         }
@@ -300,12 +314,33 @@ impl Scenario for IncScn {
             self.step(w, &h, &mut g, &IAct::Open { user: a, amount: 1000, dur: 0, receiver: None }, &mut cx);
             self.step(w, &h, &mut g, &IAct::Open { user: bb, amount: 1000, dur: 1, receiver: None }, &mut cx);
         }
-        if r.prefix >= 2 {
+        if r.prefix == 2 || r.prefix == 3 {
             let c = self.users.last().unwrap().clone();
             self.step(w, &h, &mut g, &IAct::OpenFlow { creator: c, amount: 10_000, funds: "exact".into(), end_delta: 4 }, &mut cx);
             self.step(w, &h, &mut g, &IAct::Tick, &mut cx);
             self.step(w, &h, &mut g, &IAct::Snapshot { user: MALLORY.into() }, &mut cx);
         }
+        if r.prefix == 3 {
+            for e in 0..5 {
+                self.step(w, &h, &mut g, &IAct::Tick, &mut cx);
+                self.step(w, &h, &mut g, &IAct::Snapshot { user: MALLORY.into() }, &mut cx);
+                if e == 0 {
+                    let a = self.users[0].clone();
+                    self.step(w, &h, &mut g, &IAct::Claim { user: a }, &mut cx);
+                }
+            }
+        }
+        if r.prefix == 4 {
+            let c = self.users.last().unwrap().clone();
+            self.step(w, &h, &mut g, &IAct::OpenFlow { creator: c, amount: 1_300_000, funds: "exact".into(), end_delta: 130 }, &mut cx);
+            for _ in 0..99 {
+                self.step(w, &h, &mut g, &IAct::Tick, &mut cx);
+                self.step(w, &h, &mut g, &IAct::Snapshot { user: MALLORY.into() }, &mut cx);
+            }
+        }
+        // violations of the property's own oracles during the setup prefix would be reported by the
+        // explorer at the root (invariants) or on the first transitions; the prefix itself is not judged
+        // except for C11, whose roots must be clean
         assert!(cx.violations.is_empty() || self.property != "C11", "root setup violates oracles: {:?}", cx.violations);
         (h, g)
     }
@@ -452,12 +487,17 @@ impl Scenario for IncScn {
                         cx.count(if is_open { "open:rejected" } else { "expand:rejected" });
                         cx.note(|| format!("rejected: {}", e.msg()));
                         if let AssetInfo::Token { contract_addr } = &h.lp {
-                            set_allowance(w, contract_addr, user, &h.incentive, 0);
+                            if !h.root.standing_allowance {
+                                set_allowance(w, contract_addr, user, &h.incentive, 0);
+                            }
                         }
                     }
                 }
             }
             IAct::BadOpen { user, kind } => {
+                if h.root.standing_allowance {
+                    return;
+                }
                 let stated: u128 = 500;
                 let sent: u128 = match kind.as_str() {
                     "less_than_stated" => 499,
